@@ -131,6 +131,7 @@ func randomCase(r *hx.Rand) Case {
 		PBatch: hx.Pick(r, []int{0, 30, 50, 80, 100}),
 		PErr:   hx.Pick(r, []int{0, 0, 5, 15, 30}),
 		PNull:  hx.Pick(r, []int{0, 5, 10}),
+		MaxN:   hx.Pick(r, []int{3, 3, 3, 8}),
 		PGate:  hx.Pick(r, []int{0, 50, 100, 100}),
 		PPre:   hx.Pick(r, []int{0, 50, 100}),
 		RoundK: hx.Pick(r, []int{1, 1, 2, 4}),
@@ -141,6 +142,26 @@ func randomCase(r *hx.Rand) Case {
 		c.Op = "mutation"
 	}
 	c.Tree = g.sels(r.Range(1, 3), true, mutation)
+	c.Query = render(c.Op, c.Tree)
+	return c
+}
+
+// wsCase: the operation goes through ServeGraphQLWS; half of them are subscriptions with 1..3 events
+// whose executions share one apiRequest (with abandonment in between: a failing non-null field).
+func wsCase(r *hx.Rand) Case {
+	c := randomCase(r)
+	c.WS = true
+	if c.Op == "mutation" || r.Chance(1, 2) {
+		c.Op = "subscription"
+		c.Events = r.Range(1, 3)
+		g := &gen{r: r, id: 100, budget: r.Range(2, 8)}
+		sub := g.sels(r.Range(1, 2), false, false)
+		if r.Chance(1, 2) {
+			sub = append(sub, Sel{Name: "n", ID: g.nextID()})
+		}
+		c.Tree = []Sel{{Name: "s", ID: 1, Sub: sub}}
+		c.PErr = hx.Pick(r, []int{5, 15, 30, 30})
+	}
 	c.Query = render(c.Op, c.Tree)
 	return c
 }
